@@ -37,6 +37,15 @@ def retry : List SysRes → Nat → Option (Int × Nat)
   | .ok :: _, n => some (0, n + 1)
   | .err e :: rest, n => if e = EINTR then retry rest (n + 1) else some (errnoStatus e, n + 1)
 
+/-- `zix_errno_status_if(r)` for one call that is not retried: `zix_sem_init`, `zix_sem_destroy`,
+`zix_sem_post` (a single `sem_init(&sem, 0, initial)` / `sem_destroy` / `sem_post`). -/
+def once : SysRes → Int
+  | .ok => 0
+  | .err e => errnoStatus e
+
+/-- The arguments `zix_sem_init(sem, initial)` hands to `sem_init`: not shared between processes, the given count. -/
+def semInitArgs (initial : Nat) : Nat × Nat := (0, initial)
+
 def semWait (oracle : List SysRes) : Option (Int × Nat) := retry oracle 0
 def semTryWait (oracle : List SysRes) : Option (Int × Nat) := retry oracle 0
 
